@@ -34,7 +34,8 @@ def gen_cases(rng, tier):
                           "wait": rng.random() < 0.75, "ci": rng.choice([0, 2]), "via": rng.choice(["lock", "locked", "backend"]),
                           "start": rng.choice([0, 0, 2, ttl])})
         cases.append({"tasks": tasks, "purge": rng.random() < 0.5, "foreign": rng.random() < 0.3,
-                      "cancel": rng.choice([None, None, 0, 1]), "schedule": [rng.randrange(6) for _ in range(60)]})
+                      "cancel": rng.choice([None, None, 0, 1]), "schedule": [rng.randrange(6) for _ in range(60)],
+                      "conf": rng.choice(["", "", "&secret=s3", "&pickle_type=default", "&pickle_type=json"])})
     if tier == "thorough":
         base = [{"key": "L", "ttl": 16, "dur": 20, "wait": True, "ci": 2, "via": "lock", "start": 0},
                 {"key": "L", "ttl": 16, "dur": 4, "wait": True, "ci": 2, "via": "lock", "start": 0}]
@@ -52,7 +53,7 @@ def run_impl(case):
             from cashews import Cache
             from cashews.exceptions import LockedError
             cache = Cache()
-            mem = cache.setup("mem://?size=100000&check_interval=" + ("0.25" if case["purge"] else "0"))
+            mem = cache.setup("mem://?size=100000&check_interval=" + ("0.25" if case["purge"] else "0") + case.get("conf", ""))
             await cache.init()
             names = {f"T{i}": i for i in range(len(case["tasks"]))}
             names["F"] = 99
@@ -162,8 +163,8 @@ def shrink(case):
             c = dict(case); c["tasks"] = case["tasks"][:i] + case["tasks"][i + 1:]
             if c["cancel"] is not None and c["cancel"] >= len(c["tasks"]): c["cancel"] = None
             yield c
-    for fld, val in (("purge", False), ("foreign", False), ("cancel", None)):
-        if case[fld] != val:
+    for fld, val in (("purge", False), ("foreign", False), ("cancel", None), ("conf", "")):
+        if case.get(fld, val) != val:
             c = dict(case); c[fld] = val; yield c
     s = case["schedule"]
     for i in range(min(len(s), 12)):
